@@ -1,8 +1,531 @@
-//! C20 child processes: stdio and exit status — not built yet.
+//! C20 — child processes: complete stdio and the real exit status.
+//!
+//! Every case spawns the helper `vchild` through `compio_process::Command` on
+//! a fresh compio runtime (io_uring or poll driver) and plays one parent
+//! scenario: who is started first (`wait`, readers, writer), which API reads /
+//! writes, in which chunk sizes. Oracles (all references are plain `libc` /
+//! procfs, never compio):
+//!
+//! * stdout / stderr bytes == the position-dependent pattern, complete, then
+//!   EOF; the child's own account of its stdin (length + hash, last line of its
+//!   stdout) == what the parent wrote;
+//! * status == what the child's last-act marker says it was about to do (and
+//!   what the case dictates); at the moment `wait` returned the marker exists,
+//!   its monotonic timestamp is in the past, and a reference
+//!   `waitpid(pid, WNOHANG)` says `ECHILD` (reaped once, by compio);
+//! * no hang: decided by logical quiescence (see `c20_run.rs::drive` and the
+//!   sentinel in `c20_sys.rs`), never by a timer; the watchdog only yields
+//!   `inconclusive`.
 
-use vcommon::Args;
+#[path = "c20_case.rs"]
+mod case;
+#[path = "c20_proto.rs"]
+mod proto;
+#[path = "c20_run.rs"]
+mod run;
+#[path = "c20_sys.rs"]
+mod sys;
 
-pub fn main(_args: &Args) {
-    eprintln!("c20: not implemented");
-    std::process::exit(3);
+use std::{os::unix::process::ExitStatusExt, time::Duration};
+
+use case::{Case, ExitKind, Order, PIPE_CAP};
+use run::{CaseRun, Env, Hang, StreamObs};
+use sys::RefWait;
+use vcommon::{Args, Report, Rng, Value, json, panics};
+
+#[derive(Default)]
+struct Judgement {
+    violations: Vec<(String, String)>,
+    inconclusive: Vec<String>,
+}
+
+impl Judgement {
+    fn v(&mut self, sig: String, what: String) {
+        self.violations.push((sig, what));
+    }
+}
+
+fn judge_stream(j: &mut Judgement, case: &Case, name: &str, api: &str, s: &StreamObs, expect: usize, trailer: bool) {
+    let drv = case.drv.name();
+    let want_total = expect as u64 + if trailer { proto::REPORT_LINE_LEN as u64 } else { 0 };
+    if let Some(o) = &s.overrun {
+        j.v(format!("C20/read-overrun/{name}/{api}/{drv}"), o.clone());
+    }
+    if let Some(e) = &s.err {
+        j.v(
+            format!("C20/read-error/{name}/{api}/{drv}"),
+            format!("reading the child's {name} failed after {} bytes: {e}", s.v.pos),
+        );
+        return;
+    }
+    if let Some(bad) = s.v.first_bad {
+        j.v(
+            format!("C20/stream-corrupt/{name}/{api}/{drv}"),
+            format!(
+                "{name}: byte at offset {bad} is not the byte the child wrote there ({} of {expect} pattern bytes received)",
+                s.v.pos.min(expect as u64)
+            ),
+        );
+    }
+    if s.v.pos < want_total {
+        j.v(
+            format!("C20/stream-short/{name}/{api}/{drv}"),
+            format!("{name}: end of file after {} bytes, the child wrote {want_total}", s.v.pos),
+        );
+    } else if s.v.extra > 0 {
+        j.v(
+            format!("C20/stream-extra/{name}/{api}/{drv}"),
+            format!("{name}: {} bytes beyond the {want_total} the child wrote", s.v.extra),
+        );
+    } else if !s.eof {
+        j.v(
+            format!("C20/no-eof/{name}/{api}/{drv}"),
+            format!("{name}: all {want_total} bytes received but no end of file reported"),
+        );
+    }
+}
+
+fn expected_status(exit: ExitKind) -> (Option<i32>, Option<i32>) {
+    match exit {
+        ExitKind::Code(c) => (Some(c), None),
+        ExitKind::SelfSig(s) | ExitKind::ParentKill(s) => (None, Some(s)),
+    }
+}
+
+fn judge(case: &Case, run: &CaseRun) -> Judgement {
+    let mut j = Judgement::default();
+    let drv = case.drv.name();
+    let order = if case.order == Order::WaitFirst && !case.strict_wait_first() {
+        "wait-started-first"
+    } else {
+        case.order.name()
+    };
+    if let Some(e) = &run.setup_err {
+        j.inconclusive.push(format!("setup: {e}"));
+        return j;
+    }
+    let api = match case.order {
+        Order::WaitWithOutput => "wait_with_output",
+        Order::CmdOutput => "output",
+        Order::CmdStatus => "status",
+        _ => "wait",
+    };
+    match &run.hang {
+        Some(Hang::Stall(what)) => {
+            j.v(
+                format!("C20/stall/{what}/{drv}"),
+                format!(
+                    "{what}: the reference (poll(2) / process state) says the operation can complete, yet over {} further \
+                     runtime iterations neither the parent completed anything nor the child made a step ({order}); trace {:?}",
+                    run::CONFIRM_ITERS, run.trace
+                ),
+            );
+            return j;
+        }
+        Some(Hang::Deadlock { child, cause }) => {
+            j.v(
+                format!("C20/deadlock/{cause}/{api}/{drv}"),
+                format!(
+                    "child blocked in {child}, nothing the parent waits for is ready, nobody moved over {} runtime \
+                     iterations ({cause}, {order}); trace {:?}",
+                    run::CONFIRM_ITERS, run.trace
+                ),
+            );
+            return j;
+        }
+        Some(Hang::ThreadBlocked { parent, child }) => {
+            j.v(
+                format!("C20/deadlock/runtime-thread-blocked-in-{parent}/{drv}"),
+                format!(
+                    "the runtime thread sits in a blocking {parent} on the child's pipe while the child is blocked in \
+                     {child}: the parent cannot drive the other direction any more (wait-for cycle, stable over 8 samples)"
+                ),
+            );
+            return j;
+        }
+        Some(Hang::Watchdog(w)) => {
+            j.inconclusive.push(format!("watchdog ({order}/{drv}): {}", w.chars().take(160).collect::<String>()));
+            return j;
+        }
+        None => {}
+    }
+    let Some(o) = &run.outcome else {
+        j.inconclusive.push("no outcome".into());
+        return j;
+    };
+    if let Some(e) = &o.spawn_err {
+        j.inconclusive.push(format!("spawn failed: {e}"));
+        return j;
+    }
+    if let Some(e) = &o.kill_err {
+        j.inconclusive.push(format!("could not kill the child: {e}"));
+        return j;
+    }
+
+    // --- wait ----------------------------------------------------------------
+    let mut child_failed: Option<String> = None;
+    match &o.wait {
+        None => j.inconclusive.push("wait was never observed".into()),
+        Some(w) => {
+            let marker = match &w.marker {
+                Ok(m) => m.clone(),
+                Err(e) => {
+                    j.v(
+                        format!("C20/wait-before-exit/marker-incomplete/{api}/{drv}"),
+                        format!("{api} returned while the child was still writing its last-act marker: {e}"),
+                    );
+                    None
+                }
+            };
+            match (&w.status, &marker) {
+                (Err(e), None) if w.pid.is_none() => j.inconclusive.push(format!("{api} failed, no child seen: {e}")),
+                (Err(e), _) => j.v(format!("C20/wait-error/{api}/{drv}"), format!("{api} failed: {e}")),
+                (Ok(st), _) => {
+                    if let Some(m) = &marker
+                        && m.intended.starts_with(&format!("exit:{}", proto::CHILD_FAILED))
+                    {
+                        child_failed = Some(m.detail.clone());
+                    }
+                    if w.marker.is_ok() && marker.is_none() {
+                        j.v(
+                            format!("C20/wait-before-exit/no-marker/{api}/{drv}"),
+                            format!("{api} returned {st:?} but the child has not performed its last act yet (marker file absent)"),
+                        );
+                    }
+                    if let Some(m) = &marker {
+                        if m.ts_ns > w.t_ns {
+                            j.v(
+                                format!("C20/wait-before-exit/marker-later/{api}/{drv}"),
+                                format!("{api} returned at {} ns, the child's last act happened at {} ns", w.t_ns, m.ts_ns),
+                            );
+                        }
+                        // the real status according to the child itself
+                        let real = match m.intended.as_str() {
+                            "pause" => expected_status(case.exit),
+                            s => match s.split_once(':') {
+                                Some(("exit", c)) => (c.parse().ok(), None),
+                                Some(("sig", s)) => (None, s.parse().ok()),
+                                _ => (None, None),
+                            },
+                        };
+                        if (st.code(), st.signal()) != real {
+                            j.v(
+                                format!("C20/wrong-status/{}/{api}/{drv}", case.exit.name()),
+                                format!(
+                                    "{api} returned code {:?} signal {:?}; the child ended with code {:?} signal {:?}",
+                                    st.code(),
+                                    st.signal(),
+                                    real.0,
+                                    real.1
+                                ),
+                            );
+                        } else if child_failed.is_none() && real != expected_status(case.exit) {
+                            j.inconclusive.push(format!("child ended differently than configured: {}", m.intended));
+                        }
+                    }
+                    match w.refwait {
+                        Some(RefWait::NoChild) => {}
+                        Some(RefWait::Running) => j.v(
+                            format!("C20/wait-before-exit/still-running/{api}/{drv}"),
+                            format!("{api} returned {st:?} while the child is still running (reference waitpid(WNOHANG) = 0)"),
+                        ),
+                        Some(RefWait::Reaped(raw)) => j.v(
+                            format!("C20/not-reaped/{api}/{drv}"),
+                            format!(
+                                "{api} returned {st:?} but the child was still waitable: the reference waitpid reaped it (raw status {raw:#x})"
+                            ),
+                        ),
+                        Some(RefWait::Error(e)) => j.inconclusive.push(format!("reference waitpid failed: errno {e}")),
+                        None => j.inconclusive.push("child pid unknown, reaping not checked".into()),
+                    }
+                }
+            }
+        }
+    }
+    if run.strays > 0 && j.violations.is_empty() {
+        j.v(
+            format!("C20/child-left-behind/{api}/{drv}"),
+            format!("{} child process(es) still existed (running or zombie) after the case had completed", run.strays),
+        );
+    }
+
+    // --- streams ---------------------------------------------------------------
+    let rapi = match case.order {
+        Order::WaitWithOutput => "wait_with_output",
+        Order::CmdOutput => "output",
+        _ => case.rapi.name(),
+    };
+    if let Some(s) = &o.out {
+        judge_stream(&mut j, case, "stdout", rapi, s, case.stdout_expect().1, case.has_trailer());
+        if case.has_trailer() && s.v.trailer.len() == proto::REPORT_LINE_LEN && s.v.first_bad.is_none() {
+            match (proto::parse_report_line(&s.v.trailer), &o.wr) {
+                (None, _) => j.v(
+                    format!("C20/stream-corrupt/stdout-trailer/{rapi}/{drv}"),
+                    format!("the child's stdin report line arrived garbled: {:?}", String::from_utf8_lossy(&s.v.trailer)),
+                ),
+                (Some((len, hash)), Some(wr)) if wr.err.is_none() && wr.overrun.is_none() => {
+                    let mut want = proto::FNV_INIT;
+                    let mut buf = vec![0u8; 65536];
+                    let mut off = 0u64;
+                    while off < wr.written {
+                        let n = ((wr.written - off) as usize).min(buf.len());
+                        proto::fill(proto::SALT_IN, off, &mut buf[..n]);
+                        want = proto::fnv(want, &buf[..n]);
+                        off += n as u64;
+                    }
+                    let wapi = case.wapi.name();
+                    if len < wr.written {
+                        j.v(
+                            format!("C20/stdin-lost/{wapi}/{drv}"),
+                            format!("the parent's writes reported {} bytes accepted, the child read {len} until EOF", wr.written),
+                        );
+                    } else if len > wr.written {
+                        j.v(
+                            format!("C20/stdin-extra/{wapi}/{drv}"),
+                            format!("the parent's writes reported {} bytes accepted, the child read {len}", wr.written),
+                        );
+                    } else if hash != want {
+                        j.v(
+                            format!("C20/stdin-corrupt/{wapi}/{drv}"),
+                            format!("the child read {len} bytes as written, but their hash differs (reordered or altered)"),
+                        );
+                    }
+                }
+                _ => {}
+            }
+        }
+    } else if o.wait.as_ref().is_some_and(|w| w.status.is_ok()) && case.order != Order::CmdStatus {
+        j.inconclusive.push("stdout not observed".into());
+    }
+    if let Some(s) = &o.err {
+        judge_stream(&mut j, case, "stderr", rapi, s, case.err_n, false);
+    }
+    if let Some(wr) = &o.wr {
+        let wapi = case.wapi.name();
+        if let Some(ov) = &wr.overrun {
+            j.v(format!("C20/write-overrun/{wapi}/{drv}"), ov.clone());
+        }
+        if let Some(e) = &wr.err {
+            j.v(
+                format!("C20/write-error/{wapi}/{drv}"),
+                format!("writing to the child's stdin failed after {} of {} bytes: {e}", wr.written, case.in_n),
+            );
+        } else if wr.written != case.in_n as u64 && wr.overrun.is_none() {
+            j.inconclusive.push("writer stopped early without error".into());
+        }
+    }
+    if let Some(why) = child_failed
+        && j.violations.is_empty()
+    {
+        j.inconclusive.push(format!("helper child failed on its own: {why}"));
+    }
+    j
+}
+
+fn replay_value(case: &Case) -> Value {
+    json!({"case": case.to_json(), "how": "vrt c20 --replay <this file>; the child is harness/vchild"})
+}
+
+struct Ctx {
+    env: Env,
+    watchdog: Duration,
+    idx: u64,
+}
+
+fn eval_case(rep: &mut Report, ctx: &mut Ctx, case: &Case) -> (Judgement, Option<CaseRun>) {
+    ctx.idx += 1;
+    let idx = ctx.idx;
+    let r = panics::catch(|| run::run_case(case, &ctx.env, idx, ctx.watchdog));
+    // whatever happened: no child may survive the case
+    let late_strays = sys::reap_strays();
+    let (j, run) = match r {
+        Ok(run) => {
+            let _ = std::fs::remove_file(&run.marker_path);
+            (judge(case, &run), Some(run))
+        }
+        Err(info) => {
+            sys::ACTIVE.store(false, std::sync::atomic::Ordering::SeqCst);
+            let mut j = Judgement::default();
+            match info.origin() {
+                panics::Origin::Repo(loc) => j.v(
+                    format!("C20/{}/{}/{}", info.sig(), case.order.name(), case.drv.name()),
+                    format!("panic inside compio at {loc}: {}", info.message),
+                ),
+                o => j.inconclusive.push(format!("harness panic {o:?}: {}", info.message)),
+            }
+            (j, None)
+        }
+    };
+    rep.eval(Some(case.signature()));
+    rep.count("children", 1);
+    rep.count("late_strays", late_strays as i64);
+    if let Some(run) = &run {
+        rep.max("case_wall_ms", run.wall_ms as i64);
+        if std::env::var_os("C20_SLOW").is_some() && run.wall_ms > 400 {
+            eprintln!("[slow] {} ms, {} iterations: {}", run.wall_ms, run.polls, case.to_json());
+        }
+        rep.max("runtime_iterations", run.polls as i64);
+        if let Some(o) = &run.outcome {
+            if let Some(w) = &o.wait {
+                if let (Ok(Some(m)), Ok(_)) = (&w.marker, &w.status) {
+                    rep.count("marker_checked", 1);
+                    rep.max("wait_latency_after_last_act_us", (w.t_ns.saturating_sub(m.ts_ns) / 1000) as i64);
+                }
+                if w.refwait == Some(RefWait::NoChild) {
+                    rep.count("reap_confirmed", 1);
+                }
+            }
+            let both = case.uses_stdin() && case.in_n > PIPE_CAP && (case.stdout_expect().1 > PIPE_CAP || case.err_n > PIPE_CAP);
+            let clean = j.violations.is_empty() && j.inconclusive.is_empty();
+            rep.floor("both-directions-above-pipe-capacity-completed", both && clean);
+            rep.floor("output-drained-only-after-wait-returned", o.drained_after_wait && case.volume() > 0 && clean);
+            rep.floor("signal-status-seen", clean && !matches!(case.exit, ExitKind::Code(_)));
+            rep.floor("nonzero-exit-code-seen", clean && matches!(case.exit, ExitKind::Code(c) if c != 0));
+            rep.floor(&format!("driver-{}-completed", case.drv.name()), clean);
+            rep.floor("hold-before-exit-and-wait-pending", clean && case.hold_ms > 0);
+            if let Some(s) = &o.out {
+                rep.count("read_ops", s.reads as i64);
+            }
+            if let Some(w) = &o.wr {
+                rep.count("write_ops", w.writes as i64);
+            }
+        }
+    }
+    (j, run)
+}
+
+fn record(rep: &mut Report, case: &Case, j: &Judgement) {
+    for (sig, what) in &j.violations {
+        rep.violation(sig, &format!("{what} [case: {}]", case.signature()), replay_value(case));
+    }
+    for r in &j.inconclusive {
+        rep.inconclusive(r);
+    }
+}
+
+pub fn main(args: &Args) {
+    let leg = args.str("leg", "plain");
+    let mut rep = Report::from_args("C20", &leg, args);
+    rep.note(
+        "compio-process is built without the nightly-only `linux_pidfd` feature (default toolchain): wait() = blocking \
+         waitpid on the driver's thread pool; the pidfd path (PollOnce on the pidfd) is NOT exercised",
+    );
+    let vchild = std::env::current_exe().ok().and_then(|p| p.parent().map(|d| d.join("vchild")));
+    let Some(vchild) = vchild.filter(|p| p.is_file()) else {
+        rep.inconclusive("vchild binary missing");
+        rep.finish();
+        return;
+    };
+    let dir = match tempfile::Builder::new().prefix("c20-").tempdir() {
+        Ok(d) => d,
+        Err(e) => {
+            rep.inconclusive(&format!("no temp dir: {e}"));
+            rep.finish();
+            return;
+        }
+    };
+    let watchdog = Duration::from_millis(args.u64("watchdog-ms", 30_000));
+    {
+        let leg = leg.clone();
+        sys::start_sentinel(watchdog, move |why| {
+            // last resort: the runtime thread cannot be brought back
+            let mut r = Report::new("C20", &leg, 0);
+            r.inconclusive(&format!("shard aborted: {why}"));
+            r.finish();
+            sys::reap_strays();
+            std::process::exit(0);
+        });
+    }
+    let mut ctx = Ctx {
+        env: Env {
+            vchild,
+            dir: dir.path().to_path_buf(),
+        },
+        watchdog,
+        idx: 0,
+    };
+
+    if let Some(path) = args.get("replay") {
+        let prog: Option<Value> = std::fs::read_to_string(path)
+            .ok()
+            .and_then(|s| vcommon::serde_json::from_str::<Value>(&s).ok())
+            .and_then(|v| v.get("program").cloned());
+        match prog.as_ref().and_then(|p| p.get("case")).and_then(Case::from_json) {
+            None => rep.inconclusive("replay file has no usable program"),
+            Some(case) => {
+                for _ in 0..args.usize("times", 3) {
+                    let (j, run) = eval_case(&mut rep, &mut ctx, &case);
+                    record(&mut rep, &case, &j);
+                    if rep.want_sample() {
+                        rep.sample(json!({"case": case.to_json(), "violations": j.violations.len(),
+                            "wall_ms": run.as_ref().map(|r| r.wall_ms)}));
+                    }
+                }
+            }
+        }
+        rep.count("strays_at_end", sys::reap_strays() as i64);
+        rep.finish();
+        return;
+    }
+
+    let thorough = args.thorough();
+    let shard = args.shard();
+    let nshards = args.nshards();
+    let base = Rng::new(args.seed());
+    let mut rng = base.fork(shard + 1);
+    let max_cases = args.iters(usize::MAX, usize::MAX);
+    let stdin_left_allowed = args.usize("stdin-left", 1) != 0;
+    let only_drv = args.get("only-drv").and_then(case::Drv::from_name);
+
+    // covering prefix (same list in every shard, dealt round-robin), then
+    // random cases until the budget is used
+    let mut cover_rng = base.fork(0xC20);
+    let cover = case::covering(&mut cover_rng);
+    let mut n = 0usize;
+    let mut it = cover.into_iter().enumerate().filter(|(i, _)| *i as u64 % nshards == shard).map(|(_, f)| f);
+    let mut covering_done = false;
+    let has_budget = args.get("budget-ms").is_some() || args.get("iters").is_some();
+    loop {
+        if n >= max_cases || rep.out_of_time() {
+            break;
+        }
+        let fixed = it.next();
+        if fixed.is_none() {
+            covering_done = true;
+            if !has_budget {
+                break; // without --budget-ms / --iters: covering prefix only
+            }
+        }
+        let mut case = case::gen_case(&mut rng, thorough, fixed);
+        if !stdin_left_allowed {
+            case.stdin_left = false;
+        }
+        if only_drv.is_some_and(|d| d != case.drv) {
+            continue;
+        }
+        n += 1;
+        let (j, run) = eval_case(&mut rep, &mut ctx, &case);
+        record(&mut rep, &case, &j);
+        if rep.want_sample()
+            && let Some(run) = &run
+        {
+            rep.sample(json!({
+                "case": case.to_json(),
+                "signature": case.signature(),
+                "wall_ms": run.wall_ms,
+                "runtime_iterations": run.polls,
+                "status": run.outcome.as_ref().and_then(|o| o.wait.as_ref()).map(|w| format!("{:?}", w.status)),
+                "stdout_bytes": run.outcome.as_ref().and_then(|o| o.out.as_ref()).map(|s| s.v.pos),
+                "stderr_bytes": run.outcome.as_ref().and_then(|o| o.err.as_ref()).map(|s| s.v.pos),
+                "stdin_bytes": run.outcome.as_ref().and_then(|o| o.wr.as_ref()).map(|s| s.written),
+                "verdict": if !j.violations.is_empty() { "violated" } else if !j.inconclusive.is_empty() { "inconclusive" } else { "held" },
+            }));
+        }
+    }
+    rep.floor("covering-prefix-completed", covering_done);
+    rep.set_exhaustive(false);
+    let strays = sys::reap_strays();
+    rep.count("strays_at_end", strays as i64);
+    rep.finish();
+    drop(dir);
 }
